@@ -112,3 +112,39 @@ Proof.
     unfold Lrow, active_axes. cbn [mcls exR2 axes_of gdim]. unfold rsuml, axis_term, apply_axis. cbn. rewrite !exu_max, !exu_min. unfold exD. field_simplify. lra. }
   intros c a _ _. split; right; right; exists 0; split; try lra; ring.
 Qed.
+
+(* on the three Cartesian classes the metric hypotheses hold by definition of the model's mesh: area factors and the 1/r factors are 1
+   and the row weight is the cell width *)
+Lemma cartesian_metric (m : Mesh ROps) (a : axis) (c : cell) (p : nat) :
+  mcls ROps m = G1 \/ mcls ROps m = G2 \/ mcls ROps m = G3 ->
+  mfac ROps m a c = 1 /\ mA ROps m a p = 1 /\ mW ROps m a p = mDX ROps m a p.
+Proof. unfold mfac, mA, mW. intros [E|[E|E]]; rewrite E; destruct a; repeat split; reflexivity. Qed.
+
+Corollary convergence_grid_nD (m : Mesh ROps) (D u : fvar ROps) (kap x e : cvar ROps) (g : cell -> axis -> R -> R)
+  (cells : list cell) (h M : axis -> R) (d k0' : R) :
+  mcls ROps m = G1 \/ mcls ROps m = G2 \/ mcls ROps m = G3 ->
+  cells <> [] ->
+  (forall c a, In c cells -> In a (active_axes ROps m) -> (1 <= cidx a c <= mN ROps m a)%nat /\ signs_ok m D c a) ->
+  (forall a c, u a c = 0) ->
+  (forall a, In a (active_axes ROps m) -> 0 < h a) -> 0 <= d -> 0 < k0' -> (forall c, In c cells -> k0' <= kap c) ->
+  (forall c a, In c cells -> In a (active_axes ROps m) ->
+     mdxf ROps m a (cidx a c) = h a /\ mdxf ROps m a (pred (cidx a c)) = h a /\ mDX ROps m a (cidx a c) = h a /\
+     D a c = d /\ D a (cdn a c) = d) ->
+  (forall c a t k, (k <= 4)%nat -> ex_derive_n (g c a) k t) ->
+  (forall c a t, Rabs (Derive_n (g c a) 4 t) <= M a) ->
+  (forall c a, In c cells -> In a (active_axes ROps m) ->
+     e (cdn a c) = g c a (0 - h a) /\ e c = g c a 0 /\ e (cup a c) = g c a (0 + h a)) ->
+  (forall c, In c cells ->
+     Lrow m D u kap x c = kap c * e c - rsuml (fun a => d * Derive_n (g c a) 2 0) (active_axes ROps m)) ->
+  (forall c a, In c cells -> In a (active_axes ROps m) ->
+     nb_homog cells (fun c => x c - e c) c (cdn a c) /\ nb_homog cells (fun c => x c - e c) c (cup a c)) ->
+  forall c, In c cells ->
+    Rabs (x c - e c) <= rsuml (fun a => d * (M a * (h a * h a) / 12)) (active_axes ROps m) / k0'.
+Proof.
+  intros Hcls Hne Hcells Hu Hh Hd Hk Hkap Huni Sm HM Hg Hrow Hnb.
+  apply (convergence_cartesian_nD m D u kap x e g cells h M d k0'); try assumption.
+  intros c a Hc Ha. destruct (Huni c a Hc Ha) as (E1 & E0 & EW & D1 & D0).
+  destruct (cartesian_metric m a c (cidx a c) Hcls) as (Hf & HA1 & HW).
+  destruct (cartesian_metric m a c (pred (cidx a c)) Hcls) as (_ & HA0 & _).
+  rewrite HW, EW. repeat split; assumption.
+Qed.
